@@ -83,6 +83,8 @@ def segment_lookup(ctx, prog):
 
 
 def run(ctx):
+    from rules.common import check_sentinel_default as _csd
+    _csd(ctx, ctx.program, ctx.program.func('iterutils.get_path'))
     prog = ctx.program
     segment_lookup(ctx, prog)
     for fname, roles in INPUT_ROLES.items():
